@@ -8,7 +8,7 @@
 From Coq Require Import ZArith List Bool Lia ZifyBool.
 From V Require Import Base.Int Base.IntLemmas Base.IO Base.Utf8 Model.Scan Model.Items Gen.ParseTable Gen.Strftime
   Proofs.Utf8 Proofs.Scan Model.Parse Proofs.C13 Proofs.C13Reads Proofs.C13Fmt Proofs.C13Digits Proofs.C13Time
-  Proofs.C13Date Proofs.C13View Proofs.C13DateTime Proofs.C13TimeForms Spec.StrftimeDoc Spec.Gregorian.
+  Proofs.C13Date Proofs.C13View Proofs.C13DateTime Proofs.C13TimeForms Proofs.C13Zoned Spec.StrftimeDoc Spec.Gregorian.
 From V Require Model.Parsed Model.Format Model.Date Model.Time Model.DateTime Model.Strftime Proofs.C12 Proofs.C12View
   Proofs.C14 Proofs.C14Date Proofs.C14Iso Proofs.C08Sweeps Proofs.C08 Proofs.C08Days Proofs.DateIso.
 Import ListNotations.
@@ -98,7 +98,8 @@ Definition gview (sv : sval) (on : option Z) : parsed :=
     (T (fun s => Some (s / 60 mod 60)))
     (T (fun s => Some (s mod 60 + (if sv_leap sv then 1 else 0))))
     (T (fun _ => on))
-    None None.
+    None
+    (match sv_off sv with Some o => if o mod 60 =? 0 then Some o else None | None => None end).
 
 (* the bounds of the value's fields: all consequences of [args_view] *)
 Record sv_bounds (sv : sval) : Prop := mk_svb {
@@ -107,7 +108,8 @@ Record sv_bounds (sv : sval) : Prop := mk_svb {
     1 <= dn_month dn <= 12 /\ 1 <= dn_day dn <= 31 /\ 1 <= ordinal_of_dn dn <= 366 /\
     1 <= snd (iso_of_dn dn) <= 53;
   svb_time : forall s, sv_sod sv = Some s -> 0 <= s < 86400;
-  svb_nano : 0 <= sv_nano sv < 1000000000
+  svb_nano : 0 <= sv_nano sv < 1000000000;
+  svb_off : forall o, sv_off sv = Some o -> -86400 < o < 86400
 }.
 
 Lemma weekday_of_dn_bounds n : 0 <= weekday_of_dn n <= 6.
@@ -118,7 +120,7 @@ Proof. intros Ho Hs. unfold weeks_on_or_before. destruct (o - s <? 1); lia. Qed.
 Lemma args_view_bounds a sv : Proofs.C12.args_view a sv -> sv_nano sv = sv_nano sv ->
   (sv_sod sv <> None \/ 0 <= sv_nano sv < 1000000000) -> sv_bounds sv.
 Proof.
-  intros [Hd Ht _ _] _ Hn. constructor.
+  intros [Hd Ht Ho _] _ Hn. constructor.
   - intros dn E. rewrite E in Hd. destruct (Model.Format.fa_date a) as [d|]; [|contradiction].
     destruct Hd as [_ [_ Hyr] (yy & m & dd & Hymd & _ & _ & Hmr & Hddr) [_ Hor] _ (w & _ & _ & _ & Hwr & Hwyr) _].
     unfold dn_month, dn_day. rewrite Hymd. cbn [fst snd]. repeat split; try assumption; lia.
@@ -127,12 +129,14 @@ Proof.
   - destruct (sv_sod sv) as [s|] eqn:E.
     + destruct (Model.Format.fa_time a) as [t|]; [|contradiction]. destruct Ht as (_ & _ & H & _). exact H.
     + destruct Hn as [Hc|H]; [contradiction|exact H].
+  - intros o E. rewrite E in Ho. destruct (Model.Format.fa_off a) as [[name off]|]; [|contradiction].
+    destruct Ho as (_ & H & _). exact H.
 Qed.
 
 Lemma gview_typed sv on : sv_bounds sv -> (forall n, on = Some n -> 0 <= n <= 999999999) ->
   Proofs.C14.typed (gview sv on).
 Proof.
-  intros [Bd Bt Bn] Hon f v Hf.
+  intros [Bd Bt Bn Bo] Hon f v Hf.
   assert (HD : forall g : Z -> option Z, match sv_dn sv with Some dn => g dn | None => None end = Some v ->
             exists dn, sv_dn sv = Some dn /\ g dn = Some v).
   { intros g Hg. destruct (sv_dn sv) as [dn|]; [|discriminate Hg]. exists dn. split; [reflexivity|exact Hg]. }
@@ -169,6 +173,8 @@ Proof.
   - apply Some_inj in Hf. subst v. unfold u32_max. clear - B7. lia.
   - apply Some_inj in Hf. subst v. unfold u32_max. clear - B7. destruct (sv_leap sv); lia.
   - pose proof (Hon v Hf) as Hn. unfold u32_max. clear - Hn. lia.
+  - destruct (sv_off sv) as [o|] eqn:Eo; [|discriminate Hf]. destruct (o mod 60 =? 0); [|discriminate Hf].
+    apply Some_inj in Hf. subst v. pose proof (Bo o eq_refl) as Hb. unfold in_i32, in_range, i32_min, i32_max. clear - Hb. lia.
 Qed.
 
 Lemma gview_date_sound sv on d dn : sv_dn sv = Some dn -> Proofs.C12.date_view d dn ->
@@ -238,7 +244,7 @@ Lemma num_w_ok sv on f p t rest wr : sv_bounds sv -> nfield_supported f = true -
   (f = NNanos -> on = Some (sv_nano sv)) ->
   w_ok (gview sv on) wr.
 Proof.
-  intros [Bd Bt Bn] Hsup Hr Hread Hnano. unfold render_num in Hr.
+  intros [Bd Bt Bn Bo] Hsup Hr Hread Hnano. unfold render_num in Hr.
   destruct (negb (width_documented f p)); [discriminate Hr|].
   destruct (num_value sv f) as [x| |] eqn:Hnv; try discriminate Hr. apply ROk_inj in Hr. subst t.
   pose proof (numeric_table (Proofs.C12.numeric_of f)) as He.
@@ -304,7 +310,7 @@ Definition frac_of (sv : sval) (f : tfield) : option Z :=
   end.
 Definition tfield_supported (f : tfield) : bool :=
   match f with
-  | TMonthAbbr | TMonthFull | TWdayAbbr | TWdayFull | TAmPmLower | TAmPmUpper | TFracAuto => true
+  | TMonthAbbr | TMonthFull | TWdayAbbr | TWdayFull | TAmPmLower | TAmPmUpper | TFracAuto | TOff | TOffColon => true
   | TFrac k _ => (k =? 3) || (k =? 6) || (k =? 9)
   | _ => false
   end.
@@ -337,12 +343,13 @@ Qed.
 Ltac norm_text H :=
   match type of H with reads_fixed ?sp ?t ?rest = _ => let t' := eval vm_compute in t in change t with t' in H end.
 
-Lemma fix_w_ok sv on f t rest wr : sv_bounds sv -> tfield_supported f = true ->
+Lemma fix_w_ok sv on f t rest wr : sv_bounds sv -> (forall o, sv_off sv = Some o -> o mod 60 = 0) ->
+  tfield_supported f = true ->
   render_fix sv f = ROk t -> reads_fixed (Proofs.C12.fixed_of f) t rest = Some wr ->
   (frac_of sv f = None \/ frac_of sv f = on) ->
   w_ok (gview sv on) wr.
 Proof.
-  intros [Bd Bt Bn] Hsup Hr Hread Hnano. unfold render_fix in Hr.
+  intros [Bd Bt Bn Bo] Hmin Hsup Hr Hread Hnano. unfold render_fix in Hr.
   destruct f; try discriminate Hsup; cbn [Proofs.C12.fixed_of] in Hread.
   - (* MonthAbbr *)
     destruct (sv_dn sv) as [dn|] eqn:Ed; [|discriminate Hr]. destruct (Bd dn eq_refl) as (_ & _ & B3 & _). unfold dn_month in B3.
@@ -428,6 +435,20 @@ Proof.
           (revert Hread; destruct (utf8_valid rest); intros Hread; [|discriminate Hread]); apply Some_inj in Hread; subst wr; reflexivity. }
     subst wr. cbn [w_ok simple_code Z.eqb Pos.eqb]. split; [exact Hrange|].
     unfold gview. rewrite Es. cbn [pget p_nanosecond]. exact Hon.
+  - (* Off *)
+    destruct (sv_off sv) as [o|] eqn:Eo; [|discriminate Hr]. apply ROk_inj in Hr. subst t.
+    pose proof (Bo o eq_refl) as Hb. pose proof (Hmin o eq_refl) as Hm.
+    change F_TimezoneOffset with (off_item false) in Hread. rewrite (offset_reads_eq false o rest Hb Hm) in Hread.
+    revert Hread. destruct (utf8_valid rest); intros Hread; [|discriminate Hread]. apply Some_inj in Hread. subst wr.
+    cbn [w_ok simple_code Z.eqb Pos.eqb]. split; [unfold i32_min, i32_max; lia|].
+    unfold gview. rewrite Eo. cbn [pget p_offset]. replace (o mod 60 =? 0) with true by lia. reflexivity.
+  - (* OffColon *)
+    destruct (sv_off sv) as [o|] eqn:Eo; [|discriminate Hr]. apply ROk_inj in Hr. subst t.
+    pose proof (Bo o eq_refl) as Hb. pose proof (Hmin o eq_refl) as Hm.
+    change F_TimezoneOffsetColon with (off_item true) in Hread. rewrite (offset_reads_eq true o rest Hb Hm) in Hread.
+    revert Hread. destruct (utf8_valid rest); intros Hread; [|discriminate Hread]. apply Some_inj in Hread. subst wr.
+    cbn [w_ok simple_code Z.eqb Pos.eqb]. split; [unfold i32_min, i32_max; lia|].
+    unfold gview. rewrite Eo. cbn [pget p_offset]. replace (o mod 60 =? 0) with true by lia. reflexivity.
 Qed.
 
 (** * E. items, their documented renderings, and the value lemma for every supported item *)
@@ -451,6 +472,7 @@ Definition tfield_of (spec : Fixed) : option tfield :=
   | F_Nanosecond3 => Some (TFrac 3 true) | F_Nanosecond6 => Some (TFrac 6 true) | F_Nanosecond9 => Some (TFrac 9 true)
   | F_Internal I_Nanosecond3NoDot => Some (TFrac 3 false) | F_Internal I_Nanosecond6NoDot => Some (TFrac 6 false)
   | F_Internal I_Nanosecond9NoDot => Some (TFrac 9 false)
+  | F_TimezoneOffset => Some TOff | F_TimezoneOffsetColon => Some TOffColon
   | _ => None
   end.
 
@@ -505,10 +527,10 @@ Proof.
   - discriminate H.
 Qed.
 
-Theorem item_value sv on it t rest w : sv_bounds sv -> doc_item sv on it t ->
-  reads_b it t rest = Some w -> w_ok (gview sv on) w.
+Theorem item_value sv on it t rest w : sv_bounds sv -> (forall o, sv_off sv = Some o -> o mod 60 = 0) ->
+  doc_item sv on it t -> reads_b it t rest = Some w -> w_ok (gview sv on) w.
 Proof.
-  intros Bsv [H Hfr] Hread. destruct it as [l|l|spec pad|spec|]; cbn [doc_render reads_b item_frac] in *.
+  intros Bsv Hmin [H Hfr] Hread. destruct it as [l|l|spec pad|spec|]; cbn [doc_render reads_b item_frac] in *.
   - revert Hread. destruct (bytes_eqb t l && starts_ok rest); intros Hread; [|discriminate Hread].
     apply Some_inj in Hread. subst w. exact I.
   - revert Hread. destruct (forallb ws_byte t && negb (starts_ws rest)); intros Hread; [|discriminate Hread].
@@ -527,24 +549,24 @@ Proof.
     { destruct spec as [ | | | | | | | | | | | | | | | | | | | i]; try discriminate Ef; try (apply Some_inj in Ef; subst f; reflexivity).
       destruct i; try discriminate Ef; apply Some_inj in Ef; subst f; reflexivity. }
     rewrite <- E1 in Hread.
-    apply (fix_w_ok sv on f t rest w Bsv); try assumption.
+    apply (fix_w_ok sv on f t rest w Bsv Hmin); try assumption.
     destruct spec as [ | | | | | | | | | | | | | | | | | | | i]; try discriminate Ef; try (apply Some_inj in Ef; subst f; reflexivity).
     destruct i; try discriminate Ef; apply Some_inj in Ef; subst f; reflexivity.
   - discriminate H.
 Qed.
 
 (* over an item list *)
-Theorem ws_value sv on : sv_bounds sv -> forall items texts tail ws,
+Theorem ws_value sv on : sv_bounds sv -> (forall o, sv_off sv = Some o -> o mod 60 = 0) -> forall items texts tail ws,
   Forall2 (doc_item sv on) items texts -> unambiguous_b (combine items texts) tail = Some ws ->
   Forall (w_ok (gview sv on)) ws.
 Proof.
-  intros Bsv. induction items as [|it r IH]; intros texts tail ws HF HU; inversion HF as [|? t ? ts Hd Hr]; subst.
+  intros Bsv Hmin. induction items as [|it r IH]; intros texts tail ws HF HU; inversion HF as [|? t ? ts Hd Hr]; subst.
   - cbn in HU. apply Some_inj in HU. subst ws. constructor.
   - cbn [combine unambiguous_b] in HU.
     destruct (reads_b it t (text_of (combine r ts) ++ tail)) as [w|] eqn:Ew; [|discriminate HU].
     destruct (unambiguous_b (combine r ts) tail) as [ws'|] eqn:Er; [|discriminate HU].
     apply Some_inj in HU. subst ws. constructor.
-    + exact (item_value sv on it t _ w Bsv Hd Ew).
+    + exact (item_value sv on it t _ w Bsv Hmin Hd Ew).
     + exact (IH ts tail ws' Hr Er).
 Qed.
 
@@ -656,20 +678,21 @@ Proof. intros V Hn. apply (args_view_bounds a sv V eq_refl). right. exact Hn. Qe
 
 (* formatter and reader up to the field record, with the record below the value's view *)
 Theorem general_core a sv on items texts ws :
-  Proofs.C12.args_view a sv -> 0 <= sv_nano sv < 1000000000 -> (forall n, on = Some n -> 0 <= n <= 999999999) ->
+  Proofs.C12.args_view a sv -> 0 <= sv_nano sv < 1000000000 -> (forall o, sv_off sv = Some o -> o mod 60 = 0) ->
+  (forall n, on = Some n -> 0 <= n <= 999999999) ->
   Forall2 (doc_item sv on) items texts -> unambiguous_b (combine items texts) [] = Some ws ->
   Model.Format.write_items a items [] = Model.Format.fok (concat texts) /\
   (forall p0, parse p0 (concat texts) items = run_writes ws p0) /\
   run_writes ws parsed_new = pok (apply_ws ws parsed_new) /\
   Proofs.C14.extends (apply_ws ws parsed_new) (gview sv on) /\ Proofs.C14.typed (gview sv on).
 Proof.
-  intros V Hn Hon HF HU. pose proof (args_bounds a sv V Hn) as Bsv.
+  intros V Hn Hmin Hon HF HU. pose proof (args_bounds a sv V Hn) as Bsv.
   pose proof (doc_items_render a sv on items texts V HF) as HR.
   split; [exact (write_items_texts a items texts [] HR)|]. split.
   - intros p0. pose proof (F2_length _ _ _ HR) as Hl.
     pose proof (unambiguous_parse (combine items texts) ws p0 HU) as H.
     rewrite text_of_combine, map_fst_combine in H by exact Hl. exact H.
-  - destruct (run_view (gview sv on) ws parsed_new (extends_new _) (ws_value sv on Bsv items texts [] ws HF HU)) as [Hrun E].
+  - destruct (run_view (gview sv on) ws parsed_new (extends_new _) (ws_value sv on Bsv Hmin items texts [] ws HF HU)) as [Hrun E].
     split; [exact Hrun|]. split; [exact E|]. apply gview_typed; assumption.
 Qed.
 
@@ -684,7 +707,7 @@ Theorem general_date_roundtrip y o d items texts ws :
 Proof.
   intros H HF HU HC. set (sv := sv_of_date (dn_of_yo y o)) in *.
   destruct (general_core (Model.Format.fa_of_date d) sv None items texts ws (args_view_date y o d H)
-              ltac:(cbn; lia) ltac:(intros n Hc; discriminate Hc) HF HU) as (Hw & Hp & Hrun & E & T).
+              ltac:(cbn; lia) ltac:(let Hq := fresh in intros ? Hq; discriminate Hq) ltac:(intros n Hc; discriminate Hc) HF HU) as (Hw & Hp & Hrun & E & T).
   split; [exact Hw|]. rewrite Hp, Hrun. cbn [pbind bind pok]. unfold pr_of.
   destruct (Proofs.DateIso.d_iso_week_spec y o d H) as (Hiw & Eiy & _). cbv zeta in Hiw, Eiy.
   set (iw := Proofs.DateIso.mkweek (fst (iso_of_dn (dn_of_yo y o))) (snd (iso_of_dn (dn_of_yo y o)))) in *.
@@ -753,7 +776,7 @@ Theorem general_time_roundtrip t on items texts ws :
 Proof.
   intros Hvt Hon HF HU HC. set (sv := sv_of_time t) in *.
   destruct (general_core (Model.Format.fa_of_time t) sv on items texts ws (args_view_time t Hvt)
-              ltac:(cbn; lia) Hon HF HU) as (Hw & Hp & Hrun & E & T).
+              ltac:(cbn; lia) ltac:(let Hq := fresh in intros ? Hq; discriminate Hq) Hon HF HU) as (Hw & Hp & Hrun & E & T).
   destruct (time_resolution sv on t _ eq_refl eq_refl Hvt Hon E HC) as (Ht & V4 & V5 & _).
   split; [exact Hw|]. split; [|split; assumption].
   rewrite Hp, Hrun. cbn [pbind bind pok]. unfold pr_of. rewrite Ht. reflexivity.
@@ -778,7 +801,7 @@ Theorem general_ndt_roundtrip y o d t on items texts ws :
 Proof.
   intros H Hvt Hon HF HU HCd HCt. set (sv := sv_of_ndt (dn_of_yo y o) t) in *.
   destruct (general_core _ sv on items texts ws (args_view_ndt y o d t H Hvt)
-              ltac:(cbn; lia) Hon HF HU) as (Hw & Hp & Hrun & E & T).
+              ltac:(cbn; lia) ltac:(let Hq := fresh in intros ? Hq; discriminate Hq) Hon HF HU) as (Hw & Hp & Hrun & E & T).
   set (p := apply_ws ws parsed_new) in *.
   destruct (time_resolution sv on t p eq_refl eq_refl Hvt Hon E HCt) as (Ht & V4 & V5 & Hsec).
   split; [exact Hw|]. split; [|split; assumption].
